@@ -144,6 +144,14 @@ def run_case(case, ctx):
     top, root = trees.odd_root(ctx.scratch, "c13", case["k"])
     try:
         unreadable = trees.build(recipe, root, ctx.state["styles"])
+        if case["k"] % 4 == 1:
+            # a covered file that cannot be read because of its sidecar (FILE.license is a directory): the problem is the file's,
+            # in lint and in lint-file alike
+            (root / "ima gé.bin").write_bytes(trees.BINARY_BLOB)
+            (root / "ima gé.bin.license").mkdir()
+            (root / "side.py").write_text("# SPDX-FileCopyrightText: 2012 Side\n# SPDX-License-Identifier: CC0-1.0\n")
+            (root / "side.py.license").mkdir()
+            res.cell("extra:sidecar-is-a-directory")
         meson = case["k"] % 4 == 2
         if meson:
             # defective files inside a Meson subproject: covered for lint *and* for lint-file once the option is given
